@@ -10,7 +10,8 @@ from . import eqcommon as E
 
 PROP = "C06"
 RULE = ("every StereoMolGraph / StereoCondensedReactionGraph spec of the universes (stars of every class with every stereoisomer, "
-        "lone pairs and unspecified parity; a seven-coordinate centre with two stereogenic arms (meso and chiral); two-unit graphs incl. meso, E/Z and axis-only; stereo reaction graphs with every "
+        "lone pairs and unspecified parity; a seven-coordinate centre with two stereogenic arms (meso and chiral); a Pt/C cage whose centres have ring neighbours only; two "
+        "chirality axes written as mirror images by ligand order; two-unit graphs incl. meso, E/Z and axis-only; stereo reaction graphs with every "
         "combination of change kinds on atoms and bonds), each also with atom/bond attributes: (a) enantiomer() equals the reference "
         "mirror (every chiral descriptor replaced by a spatially mirrored one, everything else identical), original untouched, "
         "applying it twice restores the original; (b) g == g.enantiomer() iff the brute-force oracle finds an isomorphism onto the "
@@ -29,6 +30,7 @@ def specs(tier):
     S += [U.to_kind(g, SCRG) for g in U.two_unit()][::2]
     S += [g for _, g in U.symmetric() if g.kind == SMG]
     S += list(U.hub_arms())
+    S += list(U.cages())
     S += list(U.stars_extra())
     S += [U.to_kind(g, SCRG) for g in U.stars_extra()][::2]
     out = []
